@@ -155,6 +155,8 @@ class SpecEnv:
 
     # -------------------------------------------------------------- compile
     def _compile(self, text: str) -> Any:
+        if text.startswith('B:'):
+            text = text[2:]
         if text not in self.cache:
             tree = ast.parse('(' + text.strip() + '\n)', mode='eval')
             tree = _Rewrite(set(self.macro_src)).visit(tree)
@@ -177,8 +179,13 @@ class SpecEnv:
             '__macros__': self._macros, '__speq__': self._speq,
             'nsent': self._nsent, 'eff': self._eff, 'eff_a': self._eff_a,
             'eff_kind': self._eff_kind, 'ANY': ANY,
+            'eff_b': lambda i, s: self.log[i][2],
+            'eff_c': lambda i, s: self.log[i][3],
             'is_none': lambda x: x is None,
             'is_some': lambda x: x is not None, 'val': lambda x: x,
+            'asopt': lambda x: x, 'aslist': lambda x: x,
+            'is_list': lambda x: isinstance(x, list),
+            'is_opt': lambda x: True,
             'unchanged': self._unchanged, 'allocated': lambda x: True,
             'unchanged_except': self._unchanged_except,
             'fresh_ref': lambda x: id(x) not in self.snap.memo,
